@@ -121,7 +121,12 @@ def verdictJson (f₁ f₂ : NStep) (fuel budget a b : Nat) : Json :=
   let (o, ok) := validate f₁ f₂ fuel budget a b
   match o with
   | .ok rel =>
-    Json.mkObj [("verdict", .str (if ok then "equiv" else "check-rejected")), ("pairs", jNat rel.length)]
+    let heads := rel.filterMap fun (a, b) =>
+      match settlePos f₁ fuel a, settlePos f₂ fuel b with
+      | some a', some b' => some (Json.arr #[jNat a', jNat b'])
+      | _, _ => none
+    Json.mkObj [("verdict", .str (if ok then "equiv" else "check-rejected")), ("pairs", jNat rel.length),
+      ("heads", .arr heads.toArray)]
   | .differ path why =>
     Json.mkObj [("verdict", .str "differ"), ("why", .str why), ("path", jList Json.bool path),
       ("trace_left", jList obsTo (traceAlong f₁ fuel (path.length * 8 + 200) a path)),
